@@ -250,92 +250,103 @@ func CheckC16(r *Run) int {
 	}
 	r.Native = nat
 	quick := r.Tier == "quick"
-	slots := 2
+	// (slots, every nested body slot filled?) per exploration: quick = 2 slots with the first nested slot filled;
+	// thorough = 3 such slots, and 2 slots with every nested slot filled
+	type cfg struct {
+		slots int
+		full  bool
+	}
+	cfgs := []cfg{{2, false}}
 	if !quick {
-		slots = 3
+		cfgs = []cfg{{3, false}, {2, true}}
 	}
 	var outcomes []wfOutcome
 	okN := 0
-	st := r.Eng.Explore(func(c *gosym.Ctx) interface{} {
-		mountStd(c)
-		n := 0
-		fresh := func(s string) string {
-			n++
-			return strings.ReplaceAll(s, "%N%", fmt.Sprint(n))
-		}
-		var sb strings.Builder
-		sb.WriteString(c16Prelude)
-		for s := 0; s < slots; s++ {
-			item := c16Menu[c.Choose("construct", 0, len(c16Menu)-1)]
-			first := true
-			for strings.Contains(item, "%BODY%") {
-				body := ""
-				if first || !quick {
-					body = fresh(c16Bodies[c.Choose("body", 0, len(c16Bodies)-1)])
-				}
-				first = false
-				item = strings.Replace(item, "%BODY%", body, 1)
+	slots := 0
+	for _, cf := range cfgs {
+		slots = cf.slots
+		fullBodies := cf.full
+		st := r.Eng.Explore(func(c *gosym.Ctx) interface{} {
+			mountStd(c)
+			n := 0
+			fresh := func(s string) string {
+				n++
+				return strings.ReplaceAll(s, "%N%", fmt.Sprint(n))
 			}
-			sb.WriteString(fresh(item) + "\n")
-		}
-		src := sb.String()
-		c.FS.AddFile("/work/main.tsh", gosym.Conc(src))
-		o := wfOutcome{Kind: "ok", Src: src}
-		for _, target := range []string{"bash", "batch"} {
-			var script gosym.Str
-			var hasErr bool
-			var errText gosym.Str
-			gp := c.Try(func() { script, errText, hasErr = c.Transpile("/work/main.tsh", target) })
-			if gp != nil || hasErr {
-				o.Kind = "rejected"
-				o.Issues = append(o.Issues, "generator-program-rejected:"+target+":"+errText.String())
-				if gp != nil {
-					o.Issues = append(o.Issues, "panic:"+gp.Msg)
+			var sb strings.Builder
+			sb.WriteString(c16Prelude)
+			for s := 0; s < slots; s++ {
+				item := c16Menu[c.Choose("construct", 0, len(c16Menu)-1)]
+				first := true
+				for strings.Contains(item, "%BODY%") {
+					body := ""
+					if first || fullBodies {
+						body = fresh(c16Bodies[c.Choose("body", 0, len(c16Bodies)-1)])
+					}
+					first = false
+					item = strings.Replace(item, "%BODY%", body, 1)
 				}
-				return o
+				sb.WriteString(fresh(item) + "\n")
 			}
-			text, _ := script.Go()
-			if target == "bash" {
-				o.Bash = text
-				var hz []oracle.Hazard
-				func() {
-					defer func() {
-						if rec := recover(); rec != nil {
-							if u, ok := rec.(oracle.ShUnsupported); ok {
-								o.Issues = append(o.Issues, "bash-syntax:"+u.Msg)
-								return
+			src := sb.String()
+			c.FS.AddFile("/work/main.tsh", gosym.Conc(src))
+			o := wfOutcome{Kind: "ok", Src: src}
+			for _, target := range []string{"bash", "batch"} {
+				var script gosym.Str
+				var hasErr bool
+				var errText gosym.Str
+				gp := c.Try(func() { script, errText, hasErr = c.Transpile("/work/main.tsh", target) })
+				if gp != nil || hasErr {
+					o.Kind = "rejected"
+					o.Issues = append(o.Issues, "generator-program-rejected:"+target+":"+errText.String())
+					if gp != nil {
+						o.Issues = append(o.Issues, "panic:"+gp.Msg)
+					}
+					return o
+				}
+				text, _ := script.Go()
+				if target == "bash" {
+					o.Bash = text
+					var hz []oracle.Hazard
+					func() {
+						defer func() {
+							if rec := recover(); rec != nil {
+								if u, ok := rec.(oracle.ShUnsupported); ok {
+									o.Issues = append(o.Issues, "bash-syntax:"+u.Msg)
+									return
+								}
+								panic(rec)
 							}
-							panic(rec)
-						}
+						}()
+						oracle.ParseScript(c, script, &hz)
 					}()
-					oracle.ParseScript(c, script, &hz)
-				}()
-			} else {
-				o.Batch = text
-				for _, is := range analyzeBatch(text) {
-					o.Issues = append(o.Issues, "batch:"+is)
+				} else {
+					o.Batch = text
+					for _, is := range analyzeBatch(text) {
+						o.Issues = append(o.Issues, "batch:"+is)
+					}
 				}
 			}
-		}
-		if len(o.Issues) > 0 {
-			o.Kind = "bad"
-		}
-		return o
-	}, gosym.ExploreOpts{Workers: r.Workers, TimeoutMS: 10000, Budget: gosym.Budget{MaxPaths: 400000, Steps: 30_000_000}, OnPath: func(pr *gosym.PathResult) {
-		o, ok := pr.Ret.(wfOutcome)
-		if !ok {
-			return
-		}
-		if o.Kind == "ok" {
-			okN++
-			if len(outcomes) < 400 {
+			if len(o.Issues) > 0 {
+				o.Kind = "bad"
+			}
+			return o
+		}, gosym.ExploreOpts{Workers: r.Workers, TimeoutMS: 10000, Budget: gosym.Budget{MaxPaths: 1500000, Steps: 30_000_000}, OnPath: func(pr *gosym.PathResult) {
+			o, ok := pr.Ret.(wfOutcome)
+			if !ok {
+				return
+			}
+			if o.Kind == "ok" {
+				okN++
+				if len(outcomes) < 400 {
+					outcomes = append(outcomes, o)
+				}
+			} else {
 				outcomes = append(outcomes, o)
 			}
-		} else {
-			outcomes = append(outcomes, o)
-		}
-	}})
-	r.Absorb("H_C16_constructs", st, fmt.Sprintf("%d statement slots, each filled by symbolic choice from %d constructs of the whole language (every builtin, empty blocks, nested loops with break/continue, functions); nested body slots from %d bodies; both targets", slots, len(c16Menu), len(c16Bodies)))
+		}})
+		r.Absorb(fmt.Sprintf("H_C16_constructs(slots=%d,all-nested-bodies=%v)", slots, fullBodies), st, fmt.Sprintf("%d statement slots, each filled by choice from %d constructs of the whole language (every builtin, empty blocks, nested loops with break/continue, functions); nested body slots from %d bodies (all of them: %v); both targets", slots, len(c16Menu), len(c16Bodies), fullBodies))
+	}
 	// deterministic order, then confirm natively
 	sort.SliceStable(outcomes, func(i, j int) bool { return outcomes[i].Src < outcomes[j].Src })
 	validated := 0
